@@ -1244,8 +1244,14 @@ func (s *Session) output(seg *segment, remoteAddr net.Addr) error {
 	default:
 		return fmt.Errorf("unsupported transport protocol %v", s.transportProtocol)
 	}
-	seq, _ := seg.Seq()
-	s.lastSend.Store(seq)
+	if !isAckProtocol(seg.Protocol()) {
+		// An ack carries the sequence number of the last segment created, which
+		// is not necessarily sent yet. Only track segments that own their
+		// sequence number, because Close() relies on this value to learn that
+		// the close session request has left.
+		seq, _ := seg.Seq()
+		s.lastSend.Store(seq)
+	}
 	s.lastTXTime.Store(time.Now().UnixMicro())
 	return nil
 }
